@@ -401,3 +401,38 @@ Definition check_107 (fs : list field) : verdict :=
     end
   | _ => VBad 99 []
   end.
+
+(* ---- 109: Value.Foreach over a struct with a descriptor that declares only SOME of the fields present ---- *)
+Fixpoint parse_ids (n : nat) (fs : list field) : option (list Z * list field) :=
+  match n with
+  | O => Some ([], fs)
+  | S n' => match fs with FZ a :: r => match parse_ids n' r with Some (l, r') => Some (a :: l, r') | None => None end | _ => None end
+  end.
+
+Definition declared_item (decl : list Z) (it : item) : bool :=
+  match it with (PField id, _, _) => existsb (Z.eqb id) decl | _ => true end.
+
+(* what the typed iteration visits: the fields the descriptor declares, in wire order, with their spans; undeclared fields
+   are skipped wherever they are *)
+Definition typed_items (decl : list Z) (v : tval) : list item := filter (declared_item decl) (items_of v).
+
+(* 109: fields = type, bytes, option bits (32 = DisallowUnknow), n declared, declared ids, status, n, items *)
+Definition check_109 (fs : list field) : verdict :=
+  match fs with
+  | FZ t :: FB bs :: FZ ob :: FZ nd :: rest =>
+    if (nd <? 0) || (nd >? 100000) then VBad 99 [] else
+    match parse_ids (Z.to_nat nd) rest with
+    | Some (decl, FZ st :: FZ n :: items) =>
+      match decode_all t bs with
+      | None => VSkip
+      | Some v =>
+        if negb (wf v) then VSkip else
+        let all := items_of v in
+        let exp := typed_items decl v in
+        if Z.testbit ob 5 && negb (zlen exp =? zlen all) then expect 2 ((st =? 1) || (st =? 2)) [FZ 2]
+        else expect 1 ((st =? 0) && (n =? zlen exp) && match_items false 0 exp items) (FZ (zlen exp) :: flat_items exp)
+      end
+    | _ => VBad 99 []
+    end
+  | _ => VBad 99 []
+  end.
